@@ -3,7 +3,7 @@
    CompressionMode.opts) is what the hand-written model computes.  A change of a boundary, a comparison or a constant in
    one of those places of the source changes Gen/FrameCode.v and breaks a proof here. *)
 From Coq Require Import List NArith ZArith Bool Lia.
-From WS Require Import Base.Words Gen.Consts Gen.FrameCode Model.Mask Model.Frame Model.Proto Model.Handshake Model.Reader Proofs.ReaderP.
+From WS Require Import Base.Words Gen.Consts Gen.FrameCode Gen.ReadCode Model.Mask Model.Frame Model.Proto Model.Handshake Model.Reader Model.NetConn Proofs.ReaderP.
 Import ListNotations.
 
 Local Open Scope N_scope.
@@ -94,3 +94,70 @@ Theorem model_literals_are_source :
   c_opContinuation = 0%Z /\ c_opText = 1%Z /\ c_opBinary = 2%Z /\ c_opClose = 8%Z /\ c_opPing = 9%Z /\ c_opPong = 10%Z /\
   c_MessageText = c_opText /\ c_MessageBinary = c_opBinary /\ (c_maxCloseReason + 2 = c_maxControlPayload)%Z.
 Proof. repeat split; reflexivity. Qed.
+
+
+(* ---------------- Gen/ReadCode.v: the checks of readLoop and handleControl, the end-of-stream codes of netConn.read ---------------- *)
+
+Local Open Scope N_scope.
+
+(* handleControl's two checks *)
+Theorem control_checks_are_source : forall h, h_plen h < 9223372036854775808 ->
+  (125 <? h_plen h) || negb (h_fin h) = gen_control_refused (Z.of_N (h_plen h)) (h_fin h).
+Proof.
+  intros h Hp. unfold gen_control_refused.
+  destruct (N.ltb_spec 125 (h_plen h)) as [A|A]; destruct (Z.ltb_spec 125 (Z.of_N (h_plen h))) as [B|B]; try lia;
+  destruct (Z.ltb_spec (Z.of_N (h_plen h)) 0) as [C|C]; try lia; destruct (h_fin h); reflexivity.
+Qed.
+
+(* both of them send Close 1002 first, as the model's handle_control does *)
+Theorem control_checks_all_close : forall n fin, gen_control_closing n fin = gen_control_refused n fin.
+Proof. reflexivity. Qed.
+
+(* the violation list of the model's reader (which read_loop_rejects shows refused, whatever follows) is: the checks
+   readLoop makes on a decoded header, as translated from the source; a reserved opcode; the checks of handleControl
+   on a control frame, as translated from the source *)
+Theorem hdr_violation_is_source : forall cfg h, h_plen h < 9223372036854775808 ->
+  hdr_violation cfg h =
+    gen_readloop_refused (negb (is_server cfg)) (h_masked h) (h_rsv1 h) (h_rsv2 h) (h_rsv3 h) (gen_rsv1_illegal (flate_on cfg) (Z.of_N (h_opc h)))
+    || negb ((h_opc h <=? 2) || ((8 <=? h_opc h) && (h_opc h <=? 10)))
+    || (is_control (h_opc h) && gen_control_refused (Z.of_N (h_plen h)) (h_fin h)).
+Proof.
+  intros cfg h Hp. unfold hdr_violation. rewrite <- control_checks_are_source by exact Hp. rewrite rsv1_clause_is_source.
+  unfold gen_readloop_refused.
+  destruct (h_rsv1 h), (h_rsv2 h), (h_rsv3 h), (h_masked h), (is_server cfg), (gen_rsv1_illegal (flate_on cfg) (Z.of_N (h_opc h))); reflexivity.
+Qed.
+
+(* of readLoop's refusals exactly the reserved-bit one sends a Close frame first — and the model's read_loop does *)
+Theorem readloop_closing_is_source : forall cfg fuel s h rest, r_closed s = false -> dec_hdr (r_inq s) = DecOk h rest ->
+  gen_readloop_closing (negb (is_server cfg)) (h_masked h) (h_rsv1 h) (h_rsv2 h) (h_rsv3 h) (gen_rsv1_illegal (flate_on cfg) (Z.of_N (h_opc h))) = true ->
+  read_loop cfg (S fuel) s = Err REOther (write_error (set_inq s rest) c_StatusProtocolError).
+Proof.
+  intros cfg fuel s h rest Hc Hd Hg. cbn [read_loop]. unfold read_hdr. rewrite Hc, Hd.
+  unfold gen_readloop_closing in Hg. rewrite <- rsv1_clause_is_source in Hg. cbn [orb] in Hg. rewrite Hg. reflexivity.
+Qed.
+
+Theorem readloop_silent_refusal_is_source : forall cfg fuel s h rest, r_closed s = false -> dec_hdr (r_inq s) = DecOk h rest ->
+  gen_readloop_closing (negb (is_server cfg)) (h_masked h) (h_rsv1 h) (h_rsv2 h) (h_rsv3 h) (gen_rsv1_illegal (flate_on cfg) (Z.of_N (h_opc h))) = false ->
+  gen_readloop_refused (negb (is_server cfg)) (h_masked h) (h_rsv1 h) (h_rsv2 h) (h_rsv3 h) (gen_rsv1_illegal (flate_on cfg) (Z.of_N (h_opc h))) = true ->
+  read_loop cfg (S fuel) s = Err REOther (set_inq s rest).
+Proof.
+  intros cfg fuel s h rest Hc Hd Hg Hr. cbn [read_loop]. unfold read_hdr. rewrite Hc, Hd.
+  unfold gen_readloop_closing in Hg. unfold gen_readloop_refused in Hr. rewrite <- rsv1_clause_is_source in Hg, Hr. cbn [orb] in Hg, Hr.
+  rewrite Hg in *. cbn [orb] in Hr.
+  destruct (is_server cfg), (h_masked h); cbn [negb andb orb] in *; try discriminate; reflexivity.
+Qed.
+
+Local Close Scope N_scope.
+
+(* netConn.read: the peer's close codes that read as io.EOF are those of the model's nc_read *)
+Theorem netconn_eof_is_source : forall code,
+  ((code =? c_StatusNormalClosure) || (code =? c_StatusGoingAway))%Z = gen_netconn_eof code.
+Proof. reflexivity. Qed.
+
+Theorem netconn_eof_read_is_source : forall f typ r n code closed,
+  fst (nc_read (S f) {| nc_typ := typ; nc_cur := None; nc_eofed := false; nc_in := NClose code :: r; nc_closed1003 := closed |} n)
+  = (if gen_netconn_eof code then NEOF else NErrClose code).
+Proof.
+  intros f typ r n code closed. cbn [nc_read nc_eofed nc_cur nc_in]. rewrite netconn_eof_is_source.
+  destruct (gen_netconn_eof code); reflexivity.
+Qed.
